@@ -140,7 +140,7 @@ func runC17(r *ev.Recorder) {
 	r.Rule = fmt.Sprintf("Tag maps over keys %v: (a) one key x every byte string of length <= 2 over all 256 byte values, raw and gofmt-formatted; "+
 		"(b) every 1-key map x every string of length <= %d over the 26 C12 units; (c) every 2- and 3-key subset x every combination of values of length <= %d over the units "+
 		"(one key additionally over length <= 2); (d) empty and nil map; (e) key order: every pair (and triples: a stride in quick, all in thorough) of keys of length <= 2 over 13 characters around ':' in ASCII order, prefixes of each other included. Oracle: parse the struct, strconv.Unquote the tag literal, reflect.StructTag.Lookup(k) == m[k] for all k, "+
-		"keys sorted, no other key. distinct_nontrivial = distinct (map) inputs with at least one value that is not plain printable ASCII", c17Keys, unitLen3, unitLen1)
+		"keys sorted, no other key. Also: values around power-of-two sizes, many pairs, maps filled or changed after Tag was called, and (j) tagged structs rendered stand-alone straight after fragment renders that gofmt rejected or that panicked (same literal as in a File). distinct_nontrivial = distinct (map) inputs with at least one value that is not plain printable ASCII", c17Keys, unitLen3, unitLen1)
 	r.Assume = []string{"reflect.StructTag and go/parser define the reading of a tag", "tag keys outside the 4 representatives and longer values are outside the bound"}
 
 	fail := func(m map[string]string, formatted bool, msg string) {
@@ -312,6 +312,28 @@ func runC17(r *ev.Recorder) {
 		r.Distinct("empty-then-filled")
 		if got.Key() != want.Key() {
 			r.Violate(ev.Violation{Signature: "c17:map-filled-after-Tag", What: fmt.Sprintf("Tag(m) with m empty at the call and filled before rendering renders %q, want %q", got, want), Case: ev.JSON(c17Case{Keys: []string{"shared-map"}})})
+		}
+	}
+	// (j) tags rendered stand-alone (Statement.GoString / Render) straight after fragment renders that
+	// failed in gofmt or panicked and were recovered: the literal must be the one a File renders
+	{
+		maps := []map[string]string{{"json": "a"}, {"a": "1", "b": "2"}, {}, {"k": "with `backquote`"}, {"k": "line\nbreak", "z": "\xff"}, nil, {"json": "name,omitempty", "xml": "x"}}
+		for round := 0; round < 3; round++ {
+			for mi, m := range maps {
+				// a fragment that gofmt rejects (a tagged field outside a struct), and one that panics
+				jh.Catch(func() (string, error) { return jen.Id("A").String().Tag(m).GoString(), nil })
+				jh.Catch(func() (string, error) { return jen.Id("A").Op("=").Lit(struct{ X int }{1}).Tag(m).GoString(), nil })
+				st := jen.Type().Id("T").Struct(jen.Id("F").Int().Tag(m), jen.Id("G").String())
+				got := jh.Catch(func() (string, error) { return st.GoString(), nil })
+				f := jen.NewFile("p")
+				f.Add(jen.Type().Id("T").Struct(jen.Id("F").Int().Tag(m), jen.Id("G").String()))
+				want := jh.RenderFile(f)
+				r.Eval(1)
+				r.Distinct(fmt.Sprintf("after-failures-%d-%d", round, mi))
+				if !got.OK() || !want.OK() || strings.TrimSpace(got.Out) != strings.TrimSpace(strings.TrimPrefix(want.Out, "package p\n")) {
+					r.Violate(ev.Violation{Signature: "c17:tag-after-failed-fragment-renders", What: fmt.Sprintf("struct with Tag(%q) rendered stand-alone after failing fragment renders: %q; in a File: %q", m, got, want), Case: ev.JSON(c17Case{Keys: []string{"shared-map"}})})
+				}
+			}
 		}
 	}
 	// (g) many keys and long values
